@@ -408,9 +408,14 @@ func LAccesses(p *Prog, fns []*ssa.Function) []LAccess {
 						add(in, "global:"+shortPkg(g.Pkg.Pkg.Path())+"."+g.Name(), false, "read", "")
 					} else if loc, ok := longLivedFieldRef(p, x.X); ok {
 						// reading a reference-typed field (map, slice, pointer) of a by-value copy still reads the shared object
-						_, isAl := func() (*ssa.Alloc, bool) { a, _ := rootAlloc(x.X); return a, a != nil }()
-						if !isAl || isRefType(x.Type()) {
-							add(in, loc, false, "read", "")
+						// … and a scalar field of the copy is the value the long-lived struct held when the method was called
+						add(in, loc, false, "read", "")
+					}
+				case *ssa.Field:
+					// field of a by-value receiver/parameter that was not spilled to a local
+					if _, isPrm := x.X.(*ssa.Parameter); isPrm {
+						if n, ok := x.X.Type().(*types.Named); ok && n.Obj().Pkg() != nil && strings.HasPrefix(n.Obj().Pkg().Path(), ModPath) && !isWireStruct(p, n) && longLivedTypes(p)[n.String()] {
+							add(in, "field:"+shortPkg(n.String())+"."+fieldName(x.X.Type(), x.Field), false, "read", "")
 						}
 					}
 				case *ssa.Lookup:
@@ -456,6 +461,10 @@ func LAccesses(p *Prog, fns []*ssa.Function) []LAccess {
 						add(in, loc, false, "call "+name, sy)
 					} else if InModule(sc) && mutatesReceiver(resolveBound(sc), 0) {
 						add(in, loc, true, "call "+name+" (mutates its receiver)", "")
+					} else if lib := statefulLibrary(name); lib != "" {
+						// a library object that keeps state between calls (in-flight call table, cache): every use both writes and reads it
+						add(in, loc, true, "call "+name+" ("+lib+" keeps state between calls)", "exclusive")
+						add(in, loc, false, "call "+name+" ("+lib+" hands back state kept from other calls)", "exclusive")
 					}
 				}
 			}
@@ -616,4 +625,22 @@ func sdkFacingTypes(p *Prog) []*types.Named {
 		}
 	}
 	return sdkFacing
+}
+
+// statefulLibrary: pointer-receiver methods of well-known library types whose whole purpose is to remember things between calls.
+func statefulLibrary(name string) string {
+	for _, p := range []struct{ prefix, what string }{
+		{"(*golang.org/x/sync/singleflight.Group).", "singleflight.Group"},
+		{"(*github.com/hashicorp/golang-lru", "LRU cache"},
+		{"(*github.com/patrickmn/go-cache.", "go-cache"},
+		{"(*github.com/allegro/bigcache", "bigcache"},
+		{"(*github.com/dgraph-io/ristretto.", "ristretto cache"},
+		{"(*container/list.List).", "container/list"},
+		{"(*github.com/golang/groupcache", "groupcache"},
+	} {
+		if strings.HasPrefix(name, p.prefix) {
+			return p.what
+		}
+	}
+	return ""
 }
